@@ -27,7 +27,7 @@ Definition build_of (ps : list pass) (st : nat) (fee : N) : outcome (N * N * nat
   end.
 
 Definition model (c : case) :=
-  resolve (k_a c) (k_b c) (k_m c) nat (build_of (k_passes c)) (N.to_nat (k_max c)) O.
+  resolve (k_a c) (k_b c) (k_m c) nat (build_of (k_passes c)) O (N.to_nat (k_max c)) O.
 
 Definition checks (c : case) : list (N * bool) :=
   let ps := k_passes c in
